@@ -66,6 +66,9 @@ func main() {
 	for i := 0; i < count; i++ {
 		g := &gen{w: w, r: r, k: k}
 		g.script()
+		if hungGlobal {
+			break
+		}
 	}
 	w.Close(map[string]any{"family": *family, "tier": *tier, "seed": px.Seed(), "scripts": count})
 }
